@@ -749,6 +749,10 @@ def draw_single(ctx, mods, r, cid, nmax):
     cname = "RecurrenceNetwork" if r.random() < 0.5 else "RecurrencePlot"
     big = r.random() < 0.12
     n = int(r.integers(1, (nmax if big else min(nmax, 25)) + 1))
+    if r.random() < 0.012:
+        # more states than fit an 8-bit counter / one block of 128 or 256
+        n = int(r.choice([129, 200, 257]))
+        ctx.count("sizes_beyond_8bit")
     style = str(r.choice(["dyadic", "int", "plateau", "const", "f32", "f64"],
                          p=[.3, .2, .1, .05, .2, .15]))
     exact = style in EXACT
